@@ -16,7 +16,7 @@ VS_SPECS = [("i:1", 6), ("i:0", 6), ("i:-3", 1), ("s:yes", 1), ("s:", 1), ("arr"
 class C20(Prop):
     id = "C20"
     title = "uid/euid change only as the master allows; without euid no object creation"
-    lean_modules = ["NV.C20.Props"]
+    lean_modules = ["NV.C20.Props", "NV.C20.Tie", "NV.C20.Negative"]
     theorems = [
         "NV.C20.model_satisfies_spec",
         "NV.C20.euid_changes_only_by_own_approved_seteuid",
@@ -27,9 +27,16 @@ class C20(Prop):
         "NV.C20.seteuid_always_asks_master",
         "NV.C20.no_crash",
         "NV.C20.every_object_has_uid",
+        # translator ties: the regenerated guards / statements equal what the model does
+        "NV.C20.tie_load_guard", "NV.C20.tie_load_no_current", "NV.C20.tie_load_test_first",
+        "NV.C20.tie_clone_entry", "NV.C20.tie_clone_retest", "NV.C20.tie_clone_order",
+        "NV.C20.tie_export_error", "NV.C20.tie_export_target", "NV.C20.tie_export_assign",
+        "NV.C20.tie_seteuid_shape", "NV.C20.tie_seteuid_verdict", "NV.C20.tie_seteuid_null_verdict",
+        "NV.C20.tie_giveuid_shape",
     ]
-    consts = [("autoTrustBackbone", "NV_AUTO_TRUST_BACKBONE"), ("autoSeteuid", "NV_AUTO_SETEUID")]
-    const_headers = ["lib/efuns/options.h"]
+    consts = [("autoTrustBackbone", "NV_AUTO_TRUST_BACKBONE"), ("autoSeteuid", "NV_AUTO_SETEUID"),
+              ("tNumber", "T_NUMBER"), ("tString", "T_STRING"), ("msMudlibLimbo", "MS_MUDLIB_LIMBO")]
+    const_headers = ["lib/efuns/options.h", "lpc/types.h", "src/simulate.h"]
     const_prelude = ("#ifdef AUTO_TRUST_BACKBONE\n#define NV_AUTO_TRUST_BACKBONE 1\n#else\n#define NV_AUTO_TRUST_BACKBONE 0\n#endif\n"
                      "#ifdef AUTO_SETEUID\n#define NV_AUTO_SETEUID 1\n#else\n#define NV_AUTO_SETEUID 0\n#endif\n")
     quick_n = 400
@@ -83,7 +90,9 @@ class C20(Prop):
                         hits.append(os.path.relpath(p, E.REPO))
         if hits:
             raise X.TieBroken("option:AUTO_SETEUID", "source now depends on AUTO_SETEUID (not modelled): %s" % hits)
-        return ""
+        from props import c20_extract
+        tn = X.probe_values(bdir, [("tNumber", "T_NUMBER")], ["lpc/types.h"])["tNumber"]
+        return c20_extract.generate(bdir, tn)
 
     def prepare(self, ctx):
         self.exe = E.compile_harness("c20", [os.path.join(E.VERIF, "harness/c20/c20.c")])
